@@ -289,6 +289,11 @@ func (fr *frame) visit(instr ssa.Instruction) bool {
 		if in.curJob != nil {
 			in.curJob.writes[p] = true
 		}
+		if in.watch != nil {
+			if lbl, ok := in.watch[p]; ok {
+				in.watchedStore(lbl, p, fr.get(instr.Val))
+			}
+		}
 		*p = copyVal(fr.get(instr.Val))
 	case *ssa.If:
 		c := fr.get(instr.Cond).(*term.Term)
@@ -835,6 +840,7 @@ func (in *Interp) binop(op token.Token, xt types.Type, x, y Value) Value {
 			case token.MUL:
 				return term.Fmul(a, b)
 			case token.QUO:
+				in.definedDiv(a, b)
 				return term.Fdiv(a, b)
 			case token.EQL:
 				return term.Feq(a, b)
@@ -1075,6 +1081,13 @@ func (in *Interp) callBuiltin(fn *ssa.Builtin, args []Value) Value {
 			tmp := make([]Value, len(src))
 			for i, e := range src {
 				tmp[i] = copyVal(e)
+			}
+			if in.watch != nil {
+				for i := 0; i < len(dst) && i < len(tmp); i++ {
+					if lbl, ok := in.watch[&dst[i]]; ok {
+						in.watchedStore(lbl, &dst[i], tmp[i])
+					}
+				}
 			}
 			n = copy(dst, tmp)
 		case string:
